@@ -20,6 +20,9 @@ RULE = (
     '40-line reader (labels var-id, level rows, solid=then, dashed=else, '
     'taillabel -1 = complement, @ref rows): same node set, same levels, '
     'evaluation == denotation for every root; dd.bdd and dd.autoref. '
+    'Histories: the same views of 1-3 held references after every step of '
+    'random histories (node numbers freed and re-used, nodes relabelled in '
+    'place by swaps/sifting/reordering, declarations and removals). '
     'Non-trivial: non-constant root; enumerated cases distinct by '
     'construction, sampled root sets by hash.')
 
@@ -42,9 +45,14 @@ def plan(tier, seed):
         for k, o in enumerate(dict.fromkeys(orders(n4, tier, seed, 6))):
             specs.append(dict(kind='all', names=n4, order=o, sample=3000,
                               sets=600, sub=k, hashseed=k))
+    for k in range(12 if tier == 'quick' else 64):
+        specs.append(dict(kind='history', sub=k, n=3 + k % 3,
+                          manager='bdd' if k % 3 else 'autoref',
+                          steps=250 if tier == 'quick' else 1500,
+                          hashseed=k))
     meta = dict(
         rule=RULE,
-        require=['traversals', 'descendants_checks', 'nx_graphs',
+        require=['history_view_checks', 'gc_freed_nodes', 'traversals', 'descendants_checks', 'nx_graphs',
                  'dot_files', 'dot_roots_evaluated', 'nx_roots_evaluated'],
         assumptions=['truth-table model in vf/oracle.py',
                      'DOT legend as documented in doc.md (solid = then, '
@@ -401,5 +409,64 @@ def all_(ctx, spec):
                     functions=len(A.tables), root_sets=spec['sets']))
 
 
+def history(ctx, spec):
+    """The same views of the references held by a manager with a history
+    (node numbers freed and re-used, nodes relabelled in place by swaps,
+    sifting and reordering, variables declared and removed), after every
+    step; dd.bdd and dd.autoref managers."""
+    import dd.autoref as _a
+    import dd.bdd as _b
+    from vf.world import World, View, node_of
+    rng = ctx.rng('history', spec['sub'])
+    kind = spec['manager']
+    reg = None
+    if kind == 'autoref':
+        reg = monitors.HandleRegistry()
+        reg.install()
+    try:
+        names = [f'x{i}' for i in range(spec['n'])]
+        w = World(ctx, rng, names, kind=kind, strict=True, registry=reg)
+        menu = dict(build=6, apply=8, ite=2, quantify=2, let_rename=1,
+                    drop=7, gc=4, sift=1, reorder_to=2,
+                    swap=3 if kind == 'bdd' else 0,
+                    declare=1 if kind == 'bdd' else 0,
+                    undeclare=1 if kind == 'bdd' else 0, **{'not': 1})
+        for k in range(spec['steps']):
+            ok, res = ctx.guard(w.site, w.step, menu, case=dict(
+                spec=spec, step=k,
+                tail=[list(map(str, d)) for d in w.log[-6:]]))
+            if not ok:
+                break
+            if not w.pool:
+                continue
+            V = View(w)
+            es = rng.sample(w.pool, min(len(w.pool), rng.randint(1, 3)))
+            roots = [node_of(e.h) for e in es]
+            if rng.random() < 0.3:
+                roots[0] = -roots[0]
+            # (a root listed twice is one root)
+            roots = list(dict.fromkeys(roots))
+            ok, _ = ctx.guard('views', check_roots, ctx, V, V.ab, _a, _b,
+                              roots, rng,
+                              case=dict(spec=spec, step=k, roots=roots,
+                                        order=V.order,
+                                        tail=[list(map(str, d))
+                                              for d in w.log[-6:]]))
+            es = None
+            ctx.counters['history_view_checks'] += 1
+            ctx.case(any(abs(r) != 1 for r in roots), 'history', spec['sub'],
+                     w.state_hash(), tuple(roots))
+            if not ok:
+                return
+        ctx.sample(dict(kind='history', manager=kind, n=spec['n'],
+                        steps=spec['steps'],
+                        last_steps=[list(map(str, d)) for d in w.log[-5:]]))
+        ctx.guard('shutdown', w.finish)
+    finally:
+        if reg:
+            reg.uninstall()
+
+
 def run_shard(ctx, spec):
-    ctx.guard(spec['kind'], all_, ctx, spec, case=spec)
+    fn = dict(all=all_, history=history)[spec['kind']]
+    ctx.guard(spec['kind'], fn, ctx, spec, case=spec)
